@@ -429,11 +429,14 @@ Definition start_at (st : store) (combs : list (option comb)) (p : nat) : list (
 
 Record rebuilt := mkRebuilt { rb_state : rstate; rb_positions : list nat }.
 
+(* the capacity computation of rebuild_structure (monotonic; at least 2 with a zero) *)
+Definition next_capacity (cap live : nat) : nat :=
+  Nat.max cap (Nat.max (if c_has_zero cf then 2 else 0) (if live =? 0 then 0 else bit_ceil live)).
+
 Definition rebuild_structure (st : store) (s : rstate) (leaves : list leaf) (sleaves : list nat) (full : bool)
   : rebuilt :=
   let live := length leaves in
-  let min_cap := if c_has_zero cf then 2 else 0 in
-  let capacity := Nat.max (r_cap s) (Nat.max min_cap (if live =? 0 then 0 else bit_ceil live)) in
+  let capacity := next_capacity (r_cap s) live in
   let bank_changed := negb (capacity =? r_cap s) in
   let full := full || bank_changed in
   let next_bank := negb (r_bank s) in
@@ -518,20 +521,25 @@ Definition set_combs (s : rstate) (combs : list (option comb)) : rstate :=
 
 (* reduce_reconcile + rebuild: the state after the structural part, the structural
    positions, and whether a rebuild happened *)
-Definition reconcile (st : store) (d : delta) (coll_event : bool) (s : rstate) : rstate * list nat * bool :=
-  let available := if c_list cf then true else st_valid st in
+Definition available (st : store) : bool := if c_list cf then true else st_valid st.
+
+(* the leaf-map half of reduce_reconcile: (leaves, structural_leaves, structural, full_structure, primed) *)
+Definition reconcile_leaves (st : store) (d : delta) (coll_event : bool) (s : rstate)
+  : list leaf * list nat * bool * bool * bool :=
   let full0 := negb (r_published s) in
-  let '(leaves, sleaves, structural, full, primed) :=
-      if available then
-        if negb (r_primed s) || coll_event then
-          let '(l, sl, stc) :=
-              if negb (r_primed s)
-              then (if c_list cf then reconcile_full_list st (r_leaves s) else reconcile_full st)
-              else reconcile_sparse st d (r_leaves s) in
-          (l, sl, stc, full0 || negb (r_primed s), true)
-        else (r_leaves s, [], false, full0, r_primed s)
-      else if r_primed s || negb (length (r_leaves s) =? 0) then ([], [], true, true, false)
-      else (r_leaves s, [], false, full0, r_primed s) in
+  if available st then
+    if negb (r_primed s) || coll_event then
+      let '(l, sl, stc) :=
+          if negb (r_primed s)
+          then (if c_list cf then reconcile_full_list st (r_leaves s) else reconcile_full st)
+          else reconcile_sparse st d (r_leaves s) in
+      (l, sl, stc, full0 || negb (r_primed s), true)
+    else (r_leaves s, [], false, full0, r_primed s)
+  else if r_primed s || negb (length (r_leaves s) =? 0) then ([], [], true, true, false)
+  else (r_leaves s, [], false, full0, r_primed s).
+
+Definition reconcile (st : store) (d : delta) (coll_event : bool) (s : rstate) : rstate * list nat * bool :=
+  let '(leaves, sleaves, structural, full, primed) := reconcile_leaves st d coll_event s in
   let s' := mkR (r_leaves s) (r_cap s) (r_combs s) (r_bank s) (r_prev s) (r_occ s) primed (r_published s) (r_pub s) (r_err s) in
   if structural || negb (r_published s)
   then let rb := rebuild_structure st s' leaves sleaves full in (rb_state rb, rb_positions rb, true)
@@ -543,7 +551,7 @@ Definition present (combs : list (option comb)) (p : nat) : bool :=
 (* prepare_reduce_evaluation_positions *)
 Definition eval_positions (st : store) (d : delta) (coll_event zero_event rebuilt : bool) (spos : list nat) (s1 : rstate)
   : list nat :=
-  let available := if c_list cf then true else st_valid st in
+  let available := available st in
   let input_event := coll_event || zero_event in
   let full_scan := negb rebuilt && negb input_event in
   let cand_struct := if rebuilt then filter (present (r_combs s1)) spos else [] in
